@@ -61,9 +61,15 @@ def depends_on(f, o, target_id, allocas_written_by=None, depth=0):
         if a[0] == 'i' and f.insts[a[1]].op == 'alloca':
             for u in f.users.get(a[1], ()):
                 if u.op == 'store' and f.strip(u.ops[1]) == a and f.strip(u.ops[0]) == ['i', target_id]:
-                    # the store must reach this load without another store in between (same or dominating block)
-                    if f.dominates(u, i):
+                    # the store must reach this load
+                    if f.dominates(u, i) or i.id in f.reach([u]):
                         return True
+        elif a[0] == 'i' and f.insts[a[1]].op == 'getelementptr':
+            # value parked in a struct member (task->read_size = handle_read(...); if (task->read_size == -1))
+            e = f.expr(a)
+            for u in f.users.get(target_id, ()):
+                if u.op == 'store' and f.strip(u.ops[0]) == ['i', target_id] and f.expr(u.ops[1]) == e and f.dominates(u, i):
+                    return True
         return False
     if i.op in ('icmp', 'and', 'or', 'xor', 'add', 'sub', 'zext', 'sext', 'trunc', 'select'):
         return any(depends_on(f, x, target_id, None, depth + 1) for x in i.ops)
